@@ -359,7 +359,23 @@ def run(report, p):
         # cleared on every path where an existing append returned falsy
         clears = [n for n in g.nodes if n.kind == "stmt" and isinstance(n.ast, ast.Assign) and any(isinstance(t, ast.Name) and t.id == fl for t in n.ast.targets) and p.fold(n.ast.value, seal) is False]
         inits = [n for n in g.nodes if n.kind == "stmt" and isinstance(n.ast, ast.Assign) and any(isinstance(t, ast.Name) and t.id == fl for t in n.ast.targets) and p.fold(n.ast.value, seal) is True]
-        okc = bool(clears) and len(inits) == 1
+        # the accumulating spelling of the same clearing: `flag = flag and result` / `flag &= result` (false from the first failure on)
+        def _accumulates(n, resvar):
+            if n.kind != "stmt" or resvar is None:
+                return False
+            a = n.ast
+            if isinstance(a, ast.AugAssign) and isinstance(a.target, ast.Name) and a.target.id == fl and isinstance(a.op, ast.BitAnd):
+                return norm(a.value) == resvar
+            if isinstance(a, ast.Assign) and len(a.targets) == 1 and isinstance(a.targets[0], ast.Name) and a.targets[0].id == fl:
+                v = a.value
+                if isinstance(v, ast.BoolOp) and isinstance(v.op, ast.And) and len(v.values) == 2:
+                    return sorted(norm(x) for x in v.values) == sorted([fl, resvar])
+                if isinstance(v, ast.BinOp) and isinstance(v.op, ast.BitAnd):
+                    return sorted([norm(v.left), norm(v.right)]) == sorted([fl, resvar])
+            return False
+
+        okc = len(inits) == 1
+        any_clear = bool(clears)
         for c, lp in existing_sites:
             cn = g.node_for(c)
             st = _stmt(c)
@@ -369,7 +385,16 @@ def run(report, p):
                 deps = [(t, l) for t, l in g.control_deps(cl, transitive=False) if t.kind == "test"]
                 if len(deps) == 1 and norm(deps[0][0].ast) == resvar and deps[0][1] == "F" and _inside(cl.ast, lp):
                     good = True
+            accs = [n for n in g.nodes if _accumulates(n, resvar) and _inside(n.ast, lp)]
+            if not good and accs:
+                # every way from the append to the next iteration (or out of the loop) passes the accumulation, and the result is not rebound in between
+                stops = {h.id for h in g.nodes if h.kind == "loop"} | {g.exit.id}
+                rebinds = {n.id for n in g.nodes if n.kind == "stmt" and n is not g.node_for(_stmt(c)) and isinstance(n.ast, (ast.Assign, ast.AugAssign)) and any(isinstance(x, ast.Name) and x.id == resvar and isinstance(x.ctx, ast.Store) for x in ast.walk(n.ast)) and _inside(n.ast, lp)}
+                if not rebinds and g.find_path(cn, stops, avoid={n.id for n in accs}) is None:
+                    good = True
+                    any_clear = True
             okc = okc and good and resvar is not None
+        okc = okc and any_clear
             # the result variable is fresh per iteration (success = True; success &= call)
         r4.check(okc, seal, clears[0].ast if clears else seal.node, f"the gate `{fl}` is not cleared on every failed verification of a recorded format", construct=f"gate {fl} cleared on failure")
     for (cx, lx) in existing_sites:
